@@ -58,3 +58,141 @@ def serveChain (authorized : Bool) : List MW → Outcome
   | .handler :: _ => ⟨200, true⟩
 
 end Chf.Router
+
+/-!
+  ## The authorization middleware and the decision function, path by path
+
+  `Gen/Routes.lean` carries every control-flow path of
+  `util.(*RouterAuthorizationCheck).Check` (the gin middleware) and of
+  `context.(*CHFContext).AuthorizationCheck` (the decision) as the go/ast extractor unfolds them
+  (harness/cmd/authast.go).  The definitions below give those paths a meaning:
+  conditions the model does not interpret are resolved by an adversary (they may depend on anything:
+  earlier requests, the clock, the state of the request's context), `opaque` steps are never assumed harmless.
+-/
+namespace Chf.Router
+
+/-- one step on a control-flow path of `Check` -/
+inductive Ev
+  | authCall                              -- `err := <NFContext>.AuthorizationCheck(<the request's Authorization header>, rac.serviceName)`
+  | errNonNil (holds : Bool)              -- a branch on `err != nil` / `err == nil`; `holds` = err is non-nil on this path
+  | cond (src : String) (taken : Bool)    -- a branch on any other condition
+  | respond (status : Nat)                -- c.JSON(status, …) and relatives
+  | abort                                 -- c.Abort()
+  | next                                  -- c.Next(): the rest of the chain runs now
+  | call (src : String)                   -- any other call (logging excluded)
+  | unread (src : String)                 -- a statement the extractor does not interpret
+deriving DecidableEq, Repr
+
+/-- what a run of the middleware leaves behind -/
+structure MwState where
+  errKnown : Bool := false        -- `err` holds the result of AuthorizationCheck for this request
+  status : Option Nat := none     -- first status written
+  aborted : Bool := false
+  ranRest : Bool := false         -- c.Next() was called before the chain was aborted
+  unread : Bool := false
+deriving DecidableEq, Repr
+
+def MwState.step (s : MwState) : Ev → MwState
+  | .authCall => { s with errKnown := true }
+  | .errNonNil _ => s
+  | .cond _ _ => s
+  | .respond st => { s with status := s.status.orElse fun _ => some st }
+  | .abort => { s with aborted := true }
+  | .next => { s with ranRest := s.ranRest || !s.aborted }
+  | .call _ => s
+  | .unread _ => { s with errKnown := false, unread := true }
+
+def runPath (p : List Ev) : MwState := p.foldl MwState.step {}
+
+/-- Can the path be taken by a request for which AuthorizationCheck answers `ok` (nil error)?
+    Only branches on the error variable, after it was assigned from AuthorizationCheck, are decided by `ok`;
+    every other condition is the adversary's. -/
+def feasibleFrom (ok : Bool) : Bool → List Ev → Bool
+  | _, [] => true
+  | _, .authCall :: r => feasibleFrom ok true r
+  | known, .errNonNil holds :: r => (!known || holds == !ok) && feasibleFrom ok known r
+  | _, .unread _ :: r => feasibleFrom ok false r
+  | known, _ :: r => feasibleFrom ok known r
+
+def feasible (ok : Bool) (p : List Ev) : Bool := feasibleFrom ok false p
+
+/-- the path is a rejection: 401 written, chain aborted, nothing of the rest ran, nothing uninterpreted -/
+def rejects (p : List Ev) : Bool :=
+  let s := runPath p
+  s.status == some 401 && s.aborted && !s.ranRest && !s.unread
+
+/-- a path is safe when an unauthorised request can only take it as a rejection -/
+def pathSafe (p : List Ev) : Bool := !feasible false p || rejects p
+
+/-- gin serves the chain; the auth middleware behaves as the path `p` of `Check` says -/
+def serveVia (p : List Ev) : List MW → Outcome
+  | [] => ⟨404, false⟩
+  | .auth :: r =>
+    let s := runPath p
+    if s.aborted && !s.ranRest then ⟨s.status.getD 200, false⟩
+    else ⟨(serveVia p r).status, (serveVia p r).handlerRan⟩
+  | .handler :: _ => ⟨200, true⟩
+
+/-! ### the decision function -/
+
+inductive AEv
+  | notRequired (taken : Bool)            -- `if !c.OAuth2Required`
+  | cond (src : String) (taken : Bool)
+  | verifyAssign                          -- `err := oauth.VerifyOAuth(token, string(serviceName), c.NrfCertPem)`
+  | call (src : String)
+  | unread (src : String)
+deriving DecidableEq, Repr
+
+inductive ARet
+  | nil                                   -- `return nil`
+  | verify                                -- `return oauth.VerifyOAuth(token, string(serviceName), c.NrfCertPem)`
+  | errVar                                -- `return err`, err assigned by `verifyAssign`
+  | other (src : String)
+deriving DecidableEq, Repr
+
+structure APath where
+  evs : List AEv
+  ret : ARet
+deriving DecidableEq, Repr
+
+/-- everything the decision could consult besides the request and the two configuration fields:
+    earlier requests, caches, the clock …  It resolves uninterpreted conditions and results. -/
+abbrev Adversary := String → Bool
+
+/-- is the path taken?  `required` = OAuth2Required -/
+def APath.taken (adv : Adversary) (required : Bool) (p : APath) : Bool :=
+  p.evs.all fun
+    | .notRequired t => t == !required
+    | .cond src t => adv src == t
+    | _ => true
+
+def AEv.isUnread : AEv → Bool
+  | .unread _ => true
+  | _ => false
+
+/-- does the path accept (return a nil error)?  `verifies` = oauth.VerifyOAuth accepts this request's header -/
+def APath.accepts (adv : Adversary) (verifies : Bool) (p : APath) : Bool :=
+  match p.ret with
+  | .nil => true
+  | .verify => verifies
+  | .errVar => if p.evs.contains .verifyAssign && !p.evs.any AEv.isUnread
+               then verifies else adv "err"
+  | .other src => adv src
+
+/-- the decision of AuthorizationCheck: the first path that is taken decides (none: no path applies) -/
+def decision (paths : List APath) (adv : Adversary) (required verifies : Bool) : Option Bool :=
+  (paths.find? (·.taken adv required)).map (·.accepts adv verifies)
+
+/-- a path of the decision function that looks at nothing but OAuth2Required and the verification of the header -/
+def APath.pure (p : APath) : Bool :=
+  p.evs.all (fun e => match e with
+    | .notRequired _ => true
+    | .verifyAssign => true
+    | _ => false) &&
+  (match p.ret with
+   | .nil => p.evs.contains (.notRequired true)
+   | .verify => true
+   | .errVar => p.evs.contains .verifyAssign
+   | .other _ => false)
+
+end Chf.Router
